@@ -1,10 +1,58 @@
-(* C17 — property theorems (placeholder until the proofs land). *)
+(* C17 — property theorems.  Only statements, each closed by [exact], each followed by
+   Print Assumptions. *)
 From Coq Require Import ZArith List Bool.
-From Centro Require Import Base.LocalMaxGrid.
+From Centro Require Import Base.LocalMaxGrid Model.LocalMax Spec.LocalMaxSpec
+  Proofs.LocalMaxShrink Proofs.LocalMaxIlm.
+Import ListNotations.
 Open Scope Z_scope.
 
-Theorem C17_ravel : forall (A : Type) (d : A) h w g y x k,
-  wf h w g -> 0 <= y < Z.of_nat h -> 0 <= x < Z.of_nat w -> k = Z.of_nat w * y + x ->
-  zget (concat g) k = Some (get2 d g y x).
-Proof. exact @zget_concat. Qed.
-Print Assumptions C17_ravel.
+(* is_local_maximum: for every image shape (also smaller than the footprint), every label image
+   and every footprint with odd sizes >= 3, symmetric or not, the line-level model (padded
+   labels, sorted stride offsets, raveled bounds-checked reads, shrinking index triples) never
+   reads out of bounds and marks exactly the labelled pixels not exceeded by a same-label pixel
+   under the footprint. *)
+Theorem C17_is_local_maximum_spec : forall image labels (fp : list (list bool)),
+  let h := length labels in
+  let w := length (hd [] labels) in
+  wf h w labels -> wf h w image ->
+  3 <= zlen fp -> 3 <= zlen (hd [] fp) -> Z.odd (zlen fp) = true -> Z.odd (zlen (hd [] fp)) = true ->
+  exists out, is_local_maximum image labels fp = Some out /\ wf h w out /\
+    forall y x, 0 <= y < Z.of_nat h -> 0 <= x < Z.of_nat w ->
+      (get2 false out y x = true <-> local_max_at image labels fp y x).
+Proof. exact is_local_maximum_spec. Qed.
+Print Assumptions C17_is_local_maximum_spec.
+
+Theorem C17_is_local_maximum_safe : forall image labels (fp : list (list bool)),
+  let h := length labels in
+  let w := length (hd [] labels) in
+  wf h w labels -> wf h w image ->
+  3 <= zlen fp -> 3 <= zlen (hd [] fp) -> Z.odd (zlen fp) = true -> Z.odd (zlen (hd [] fp)) = true ->
+  is_local_maximum image labels fp <> None.
+Proof. exact is_local_maximum_safe. Qed.
+Print Assumptions C17_is_local_maximum_safe.
+
+(* the checker evaluated on the implementation's output is sound for the declarative spec *)
+Theorem C17_ilm_check_sound : forall image labels fp out, ilm_check image labels fp out = true ->
+  wf (length labels) (length (hd [] labels)) out /\
+  forall y x, 0 <= y < zlen labels -> 0 <= x < zlen (hd [] labels) ->
+    (get2 false out y x = true <-> local_max_at image labels fp y x).
+Proof. exact ilm_check_sound. Qed.
+Print Assumptions C17_ilm_check_sound.
+
+(* the shrinking work lists keep exactly the pixels that pass every offset's test ... *)
+Theorem C17_shrink_spec : forall (P O : Type) (ok : O -> P -> bool) offs l0,
+  shrink P O ok offs l0 = filter (fun p => forallb (fun o => ok o p) offs) l0.
+Proof. exact shrink_spec. Qed.
+Print Assumptions C17_shrink_spec.
+
+(* ... whatever the order in which the offsets are visited *)
+Theorem C17_shrink_perm : forall (P O : Type) (ok : O -> P -> bool) offs offs' l0,
+  (forall o, In o offs <-> In o offs') -> shrink P O ok offs l0 = shrink P O ok offs' l0.
+Proof. exact shrink_perm. Qed.
+Print Assumptions C17_shrink_perm.
+
+Theorem C17_padded_read_safe : forall (A : Type) (pad : nat) (z : A) (l : list A) (k d : Z),
+  0 <= k < zlen l -> - Z.of_nat pad <= d <= Z.of_nat pad ->
+  zget (padded pad z l) (Z.of_nat pad + k + d) <> None.
+Proof. exact @padded_read_safe. Qed.
+Print Assumptions C17_padded_read_safe.
